@@ -373,4 +373,61 @@ theorem handleRecord_sev (H : Crypto.Prims) (P : Prims) (L : SealLaws P) (kl : L
     rw [this]
     omega
 
+-- ------------------------------------------------------------------ histories of application-data `send` events
+def evSrv : Ev → Bool
+  | .send srv _ _ _ => srv
+  | .switch srv => srv
+
+def evPt : Ev → Bytes
+  | .send _ _ pt _ => pt
+  | .switch _ => []
+
+/-- an application-data record (content type 23) -/
+def IsAppSend : Ev → Prop
+  | .send _ typ _ _ => typ = 23
+  | .switch _ => False
+
+def toSEv : Ev → SEv
+  | .send srv _ pt f => .app srv pt f
+  | .switch srv => .app srv [] ⟨[], [], [], 0⟩
+
+def histOf (evs : List Ev) (cars : List (List Nat)) : List (SEv × List Nat) :=
+  List.zipWith (fun e c => (toSEv e, c)) evs cars
+
+theorem histOf_spec (cls : CipherClass) (macLen : Nat) (evs : List Ev) (cars : List (List Nat))
+    (hc : cars.length = evs.length) (happ : ∀ e ∈ evs, IsAppSend e) (hev : ∀ e ∈ evs, EvOk cls macLen e) :
+    (histOf evs cars).flatMap (·.1.evs) = evs ∧ (histOf evs cars).map (·.2) = cars ∧
+    (histOf evs cars).length = evs.length ∧ (∀ h ∈ histOf evs cars, h.1.Ok cls macLen) ∧
+    ∀ recs : List (Session.Rec × Bool),
+      (List.zipWith (fun (e : SEv × List Nat) (r : Session.Rec × Bool) => e.1.entries r.1) (histOf evs cars) recs).flatten
+        = List.zipWith (fun e (r : Session.Rec × Bool) => (⟨some (evPt e), r.1, evSrv e, true⟩ : Session.Entry)) evs recs := by
+  induction evs generalizing cars with
+  | nil =>
+    cases cars with
+    | nil => simp [histOf]
+    | cons c cs => simp at hc
+  | cons e es ih =>
+    cases cars with
+    | nil => simp at hc
+    | cons c cs =>
+      obtain ⟨i1, i2, i3, i4, i5⟩ := ih cs (by simpa using hc) (fun e' h' => happ e' (by simp [h']))
+        (fun e' h' => hev e' (by simp [h']))
+      have he := happ e (by simp)
+      have hk := hev e (by simp)
+      cases e with
+      | switch srv => exact absurd he (by simp [IsAppSend])
+      | send srv typ pt f =>
+        simp only [IsAppSend] at he
+        subst he
+        simp only [histOf, List.zipWith_cons_cons] at i1 i2 i3 i4 i5 ⊢
+        refine ⟨by rw [List.flatMap_cons, i1]; rfl, by simp [i2], by simp [i3], ?_, ?_⟩
+        · intro h hh
+          rcases List.mem_cons.mp hh with rfl | hh
+          · exact hk
+          · exact i4 h hh
+        · intro recs
+          cases recs with
+          | nil => simp
+          | cons r rs => simp only [List.zipWith_cons_cons, List.flatten_cons, i5]; rfl
+
 end TLX.Lemmas.Pipeline
